@@ -28,7 +28,7 @@ def fluid(T, xfers):
     """xfers: list of dicts(start, vol, limit, abort|None). Returns list of end times (None for aborted ones)."""
     n = len(xfers)
     ends = [None] * n
-    rem = [Fraction(x['vol']) for x in xfers]
+    rem = [(None if x['vol'] == 'inf' else Fraction(x['vol'])) for x in xfers]       # None: endless traffic, never completes
     lim = [(None if x['limit'] is None else Fraction(x['limit'])) for x in xfers]
     started = [False] * n
     active = set()
@@ -82,7 +82,8 @@ def fluid(T, xfers):
             continue
         nxt = []
         for i in active:
-            nxt.append(t + rem[i] / r[i])
+            if rem[i] is not None:
+                nxt.append(t + rem[i] / r[i])
             if xfers[i]['abort'] is not None:
                 nxt.append(Fraction(xfers[i]['abort']))
         for i, x in enumerate(xfers):
@@ -92,6 +93,8 @@ def fluid(T, xfers):
             break
         tn = min(nxt)
         for i in list(active):
+            if rem[i] is None:
+                continue
             rem[i] -= r[i] * (tn - t)
             if rem[i] <= 0 and not (xfers[i]['abort'] is not None and Fraction(xfers[i]['abort']) < tn):
                 if xfers[i]['abort'] is None or Fraction(xfers[i]['abort']) >= tn:
@@ -172,6 +175,16 @@ def cases(tier):
             for order in itertools.permutations(trio):
                 out.append(program(pipe, list(order)))
             out.append(program(pipe, [xfer_script(0, [(6, 1)]), xfer_script(1, [(2, huge), (2, huge)])]))
+    # endless background traffic (volume inf) that holds its share until it is interrupted, next to ordinary transfers
+    for pipe in ('p1', 'p2', 'p3'):
+        for lim in (None, 1, 4):
+            for stop in (1, 3, 6):
+                bg = [['UNTIL', 'bgu', ['DELAY', stop], [['XFER', 'p', 'inf', lim]]], ['PROBE', 'now']]
+                for st in (0, 1):
+                    for other in ([(2, None)], [(4, 4)], [(1, 1), (2, None)]):
+                        out.append(program(pipe, [bg, xfer_script(st, other)]))
+                        out.append(program(pipe, [xfer_script(st, other), [['D', 1]] + bg]))
+                out.append(program(pipe, [bg, xfer_script(0, [(2, 1)]), xfer_script(1, [(4, None)])]))
     # transfers that are the children (one of them volatile) of an activity's own scope: the owner is cancelled, interrupted
     # or closed at every boundary, also while it waits for its children at the end of its block
     for pipe in ('p1', 'p2'):
@@ -218,6 +231,9 @@ def pipe_model(ctx, program):
             continue
         if x['end'] is None:
             msgs.append('%s transfer %r never completed (model: %s)' % (x['key'][0], x['key'][1], e))
+            continue
+        if x['vol'] == 'inf':
+            msgs.append('%s: an endless transfer (volume inf) completed at %r' % (x['key'][0], x['end']))
             continue
         if e is None or abs(float(e) - x['end']) > TOL * (1 + abs(float(e))):
             msgs.append('%s: transfer of %r (limit %r) started at %r completed at %r, the fluid model says %s' % (
